@@ -140,6 +140,25 @@ def rounds():
         name = f"{key[:3]}-{'E' if key[3] == 'A' else 'F'}"
         yield key, val, f"/tmp/wt/out3-{key[:3]}", [f"/tmp/seedres/R3{key}.recheck.txt", f"/tmp/seedres/R3{key}.quick.txt"], f"/tmp/seedres/R3{key}.quick.txt", name, 3
 
+NEEDS5 = {
+ "C01A": ("src/fixed_priority/fully_preemptive.rs: the maximum over offsets stops after 16 consecutive offsets that did not raise the bound ('the window is draining')", "a busy window with at least 18 jobs of the analysed task and the true maximum behind a long plateau: near-saturation systems with co-prime periods, smallest found (C,T) = (2,7),(4,19),(1,2); no system with single-digit periods or <= 2 tasks"),
+ "C01B": ("src/arrival/curve.rs: Curve caches the number of jobs in its largest known distance; extrapolate_with_bound (used by Curve::from(&ArrivalCurvePrefix)) does not refresh it", "a Curve converted from a prefix object, queried beyond the prefix horizon: one job too few per repetition"),
+ "C02A": ("src/edf/fully_nonpreemptive.rs: per-offset blocking bound from a table of blockers sorted by deadline whose running maximum is built in the wrong direction", "at least three potential blockers (four tasks) with the longest one two or more positions away in deadline order; every system with <= 3 tasks is unchanged"),
+ "C02B": ("src/edf/floating_nonpreemptive.rs: interfering workload summed over other_tasks[..partition_point(D_o <= D + A)] (assumes deadline order)", "three or more interfering tasks listed in non-deadline order"),
+ "C03A": ("src/demand/mod.rs: shared merged_steps helper for Slice/Aggregate skips one component too many after the three merged directly", "an aggregate of at least four components whose component at index 3 alone owns the worst-case step"),
+ "C04A": ("src/ros2/ecrts19.rs rta_timer: higher-priority interference interval shortened by the blocking bound", "non-zero blocking, a higher-priority timer released in the cut-off part of the window (three callbacks)"),
+ "C05A": ("src/ros2/bw.rs: busy-window length (Lemma 18) computed with activation offset 0, so the polling-point cap applies inside the busy-window equation", "a busy window spanning three or more releases of a polled callback; utilisation >= 90 % (jitter-free: three or more callbacks)"),
+ "C06A": ("src/edf/fully_nonpreemptive.rs: blocking look-up table filled upwards instead of downwards (same idea as round-5 C02-A, written independently)", "four tasks, three with later deadlines, the longest blocker third in deadline order"),
+ "C07A": ("src/ros2/bw.rs: debug-only brute-force cross-check of the search space bounded by (0..100_000) — and it IS the search space in debug builds", "a busy window longer than 100 000 ticks (microsecond time base): debug and release builds return different bounds"),
+ "C07B": ("src/ros2/bw.rs: activation scan stops at the first activation whose bound is 0", "a later instance of the analysed callback after a run of zero bounds (four callbacks, or two with jitter at 0.02 %)"),
+ "C18A": ("src/arrival/curve.rs: Curve::extrapolate stops growing the cached prefix at 1024 entries", "a window covering more than 1024 activations of an auto-extrapolating curve: the fall-back composition over-counts by one; bounds stay safe but are no longer attained (smallest: analysed cost 342 against curve [1,2,4])"),
+}
+
+def rounds5():
+    for key, val in sorted(NEEDS5.items()):
+        name = f"{key[:3]}-{'I' if key[3] == 'A' else 'J'}"
+        yield key, val, f"/tmp/wt/out5-{key[:3]}", [f"/tmp/seedres/R5{key}.recheck.txt", f"/tmp/seedres/R5{key}.quick.txt"], f"/tmp/seedres/R5{key}.quick.txt", name, 5
+
 def rounds4():
     for key, val in sorted(NEEDS4.items()):
         name = f"{key[:3]}-{'G' if key[3] == 'A' else 'H'}"
@@ -149,7 +168,7 @@ def main():
     root = "/verif/seeded"
     os.makedirs(root, exist_ok=True)
     index = []
-    for key, (change, needs), out, cands, basefile, name, rnd in list(rounds()) + list(rounds4()):
+    for key, (change, needs), out, cands, basefile, name, rnd in list(rounds()) + list(rounds4()) + list(rounds5()):
         pid, v = key[:3], key[3]
         res = None
         # the newest confirmation run wins
